@@ -23,7 +23,11 @@
 (***************************************************************************)
 EXTENDS JoeMC, Json
 
-CONSTANT DownAfter   \* Shutdown is called only after this many messages were accepted (keeps the random behaviours from ending at once)
+CONSTANT FaultKinds,  \* which calls may fail in the exported behaviours: subset of {"send", "flush", "put", "rend"}
+         FaultOdds,   \* a fault that is possible is taken with probability 1/FaultOdds (simulation only: keeps the fault budget
+                      \* from being spent at the first opportunity in nearly every behaviour)
+         SubAfter,   \* Subscribe is called only after this many messages were accepted (resuming subscribers that find a full buffer)
+         DownAfter   \* Shutdown is called only after this many messages were accepted (keeps the random behaviours from ending at once)
 
 VARIABLE hist
 svars == <<mcvars, hist>>
@@ -32,11 +36,13 @@ B(b) == IF b THEN "T" ELSE "F"
 H(n, a, b, c) == hist' = Append(hist, <<n, a, b, c>>)
 NF == UNCHANGED nfaults
 
+SFault(ok, kind) == Fault(ok) /\ (ok \/ (kind \in FaultKinds /\ RandomElement(1..FaultOdds) = 1))
+
 SInit == MCInit /\ hist = <<>>
 
 SNext ==
     \/ \E s \in Subs :
-          \/ CallSub(s, SubTopics[s], LastIDs[s]) /\ NF /\ H("CallSub", s, "", "")
+          \/ Len(accepted) >= SubAfter /\ CallSub(s, SubTopics[s], LastIDs[s]) /\ NF /\ H("CallSub", s, "", "")
           \/ S1Closed(s) /\ NF /\ H("S1Closed", s, "", "")
           \/ LoopSub(s) /\ NF /\ H("LoopSub", s, "", "")
           \/ RBegin(s) /\ NF /\ H("RBegin", s, "", "")
@@ -44,10 +50,10 @@ SNext ==
           \/ S2Ctx(s) /\ NF /\ H("S2Ctx", s, "", "")
           \/ (s \in CancelSubs /\ s \notin canc /\ spc[s] \in {"s1", "s2"} /\ Cancel(s) /\ NF /\ H("Cancel", s, "", ""))
           \/ \E v \in {"nil", "err", "closed"} : RetSub(s, v) /\ NF /\ H("RetSub", s, v, "")
-          \/ \E p \in Pubs, ok \in BOOLEAN : Send(s, p, ok) /\ Fault(ok) /\ H("Send", s, p, B(ok))
+          \/ \E p \in Pubs, ok \in BOOLEAN : Send(s, p, ok) /\ SFault(ok, "send") /\ H("Send", s, p, B(ok))
           \* a real replayer flushes what it sent, once
-          \/ \E ok \in BOOLEAN : (lpc = "subrep" => s \in unfl) /\ Flush(s, ok) /\ Fault(ok) /\ H("Flush", s, B(ok), "")
-          \/ \E v \in {"nil", "err", "replayerr", "panic"} : REnd(s, v) /\ Fault(v \in {"nil", "err"}) /\ H("REnd", s, v, "")
+          \/ \E ok \in BOOLEAN : (lpc = "subrep" => s \in unfl) /\ Flush(s, ok) /\ SFault(ok, "flush") /\ H("Flush", s, B(ok), "")
+          \/ \E v \in {"nil", "err", "replayerr", "panic"} : REnd(s, v) /\ SFault(v \in {"nil", "err"}, "rend") /\ H("REnd", s, v, "")
           \/ LoopSubFail(s) /\ NF /\ H("LoopSubFail", s, "", "")
           \/ LoopRegister(s) /\ NF /\ H("LoopRegister", s, "", "")
           \/ LoopFail(s) /\ NF /\ H("LoopFail", s, "", "")
@@ -57,7 +63,7 @@ SNext ==
           \/ CallPub(p, PubTopics[p]) /\ NF /\ H("CallPub", p, "", "")
           \/ PubClosed(p) /\ NF /\ H("PubClosed", p, "", "")
           \/ LoopMsg(p) /\ NF /\ H("LoopMsg", p, "", "")
-          \/ \E v \in {"ok", "err", "panic"} : Put(p, v) /\ Fault(v = "ok") /\ H("Put", p, v, "")
+          \/ \E v \in {"ok", "err", "panic"} : Put(p, v) /\ SFault(v = "ok", "put") /\ H("Put", p, v, "")
           \/ ReplyErr(p) /\ NF /\ H("ReplyErr", p, "", "")
           \/ Reply(p) /\ NF /\ H("Reply", p, "", "")
           \/ \E v \in {"nil", "puterr", "closed"} : RetPub(p, v) /\ NF /\ H("RetPub", p, v, "")
